@@ -50,7 +50,7 @@ func pillarObs(l *calendar.Lunar) obj {
 }
 
 func c05Years(c *ctx) {
-	years := c.yearsFor(c05Boundary, c.argInt("years", 150), 1, 9998)
+	years := c.yearsFor(append(append([]int{}, c05Boundary...), termEdgeYears(c.argInt("edge", 60), true)...), c.argInt("years", 150), 1, 9998)
 	for _, y := range years {
 		if !c.mine(y) {
 			continue
